@@ -146,22 +146,40 @@ Definition logop_layout_ok : bool :=
   list_eqb String.eqb (map f_go raft_logop_fields) ["TagCtx"; "Cid"; "Type"]
   && forallb (fun e : string * bool => snd e) raft_logop_opaque
   && match slookup "LogOp" api_schema with None => true | Some _ => false end.
+(* The model lays a Pin out in ONE canonical order of its Go fields and converts to and from the order of the generated
+   table BY FIELD NAME, so that the order in which api.Pin / api.PinOptions declare their fields (which decides the order
+   of keys on the wire, nothing else) is not something the model depends on: swapping two fields in the source is a
+   harmless edit and must not break the correspondence. What the model does rely on: the table describes exactly these
+   fifteen fields, each once. *)
+Definition pin_go_names : list string :=
+  ["ReplicationFactorMin"; "ReplicationFactorMax"; "Name"; "Mode"; "ShardSize"; "UserAllocations"; "ExpireAt";
+   "Metadata"; "PinUpdate"; "Origins"; "Cid"; "Type"; "Allocations"; "MaxDepth"; "Reference"].
+Definition pin_schema_names : list string :=
+  match fields_of api_schema "Pin" with Some fs => map f_go fs | None => [] end.
+Fixpoint sindex (n : string) (l : list string) : nat :=
+  match l with [] => 0 | x :: r => if String.eqb n x then 0 else S (sindex n r) end.
+Fixpoint names_nodup (l : list string) : bool :=
+  match l with [] => true | x :: r => negb (existsb (String.eqb x) r) && names_nodup r end.
 Definition pin_layout_ok : bool :=
-  match fields_of api_schema "Pin" with
-  | Some fs => list_eqb String.eqb (map f_go fs)
-                 ["ReplicationFactorMin"; "ReplicationFactorMax"; "Name"; "Mode"; "ShardSize"; "UserAllocations"; "ExpireAt";
-                  "Metadata"; "PinUpdate"; "Origins"; "Cid"; "Type"; "Allocations"; "MaxDepth"; "Reference"]
-  | None => false
-  end.
+  Nat.eqb (List.length pin_schema_names) (List.length pin_go_names) && names_nodup pin_schema_names
+  && forallb (fun n => existsb (String.eqb n) pin_schema_names) pin_go_names.
+(* the values listed in the order [from], re-listed in the order [to] *)
+Definition reorder (from to : list string) (vs : list val) : list val :=
+  map (fun n => nth (sindex n from) vs (VInt 0)) to.
+
+(* a record of struct [sn] given by field name: [names] and [vs] in any one order, re-listed in the order of the table *)
+Definition rec_by_name (sch : schema) (sn : string) (names : list string) (vs : list val) : val :=
+  VRec (reorder names (match fields_of sch sn with Some fs => map f_go fs | None => [] end) vs).
 
 (* api.Pin as a value of the table, and back *)
-Definition pin_to_val (p : pin) : val :=
+Definition pin_canon_vals (p : pin) : list val :=
   let o := popts p in
-  VRec [VInt (rmin o); VInt (rmax o); VStr (name o); VInt (mode o); VUint (shard_size o); VList (map VPeer (user_allocs o));
-        VTime (expire o); VMap (map (fun kv => (fst kv, VStr (snd kv))) (metadata o)); VCid (pin_update o);
-        VList (map (fun a => VAddr (Some a)) (origins o));
-        VCid (pcid p); VUint (ptype p); VList (map VPeer (allocs p)); VInt (maxdepth p);
-        VPtr (match reference p with None => None | Some x => Some (VCid x) end)].
+  [VInt (rmin o); VInt (rmax o); VStr (name o); VInt (mode o); VUint (shard_size o); VList (map VPeer (user_allocs o));
+   VTime (expire o); VMap (map (fun kv => (fst kv, VStr (snd kv))) (metadata o)); VCid (pin_update o);
+   VList (map (fun a => VAddr (Some a)) (origins o));
+   VCid (pcid p); VUint (ptype p); VList (map VPeer (allocs p)); VInt (maxdepth p);
+   VPtr (match reference p with None => None | Some x => Some (VCid x) end)].
+Definition pin_to_val (p : pin) : val := VRec (reorder pin_go_names pin_schema_names (pin_canon_vals p)).
 
 Fixpoint all_some {A} (l : list (option A)) : option (list A) :=
   match l with
@@ -173,15 +191,21 @@ Definition peer_of (v : val) : option tok := match v with VPeer p => Some p | _ 
 Definition addr_of (v : val) : option string := match v with VAddr (Some a) => Some a | VAddr None => Some "<nil>" | _ => None end.
 Definition meta_of (kv : string * val) : option (string * string) := match snd kv with VStr s => Some (fst kv, s) | _ => None end.
 
-Definition val_to_pin (v : val) : option pin :=
-  match v with
-  | VRec [VInt rn; VInt rx; VStr nm; VInt md; VUint sh; VList ua; VTime ex; VMap me; VCid pu; VList og;
-          VCid ci; VUint ty; VList al; VInt dp; VPtr rf] =>
+Definition canon_to_pin (vs : list val) : option pin :=
+  match vs with
+  | [VInt rn; VInt rx; VStr nm; VInt md; VUint sh; VList ua; VTime ex; VMap me; VCid pu; VList og;
+     VCid ci; VUint ty; VList al; VInt dp; VPtr rf] =>
       match all_some (map peer_of ua), all_some (map meta_of me), all_some (map addr_of og), all_some (map peer_of al),
             match rf with None => Some None | Some (VCid x) => Some (Some x) | Some _ => None end with
       | Some ua', Some me', Some og', Some al', Some rf' => Some (mk_pin (mk_opts rn rx nm md sh ua' ex me' pu og') ci ty al' dp rf')
       | _, _, _, _, _ => None
       end
+  | _ => None
+  end.
+Definition val_to_pin (v : val) : option pin :=
+  match v with
+  | VRec vs => if Nat.eqb (List.length vs) (List.length pin_schema_names)
+               then canon_to_pin (reorder pin_schema_names pin_go_names vs) else None
   | _ => None
   end.
 
